@@ -33,7 +33,8 @@ def cases(tier, seed):
         nt, bo = COMBOS[k % len(COMBOS)]
         start = rng.choice(hist_array.STARTS + [(1,), (4, 3), (2, 3, 1, 2)])
         yield {'kind': 'array', 'start': {'shape': list(start), 'numtype': nt, 'bo': bo, 'chunklen': rng.choice([1, 2, 100])},
-               'ops': [rng.choice(allops) for _ in range(rng.randint(2, 14))], 'vseed': f'{seed}:{k}'}
+               'ops': [rng.choice(allops) for _ in range(rng.randint(2, 14))], 'vseed': f'{seed}:{k}',
+               'observe': ['every', 'sparse', 'end'][k % 3]}
     # growth ladders: 4 subarrays grown one at a time through 5, 6, 7, 8, 9
     for how in ('app1', 'app3', 'app0', 'iter2', 'itergen'):
         for atom in hist_ragged.ATOMS:
